@@ -39,6 +39,11 @@ const (
 // should be terminated immediately.
 type ContextTerminationError struct {
 	message string
+
+	// True if the context ran out of CPU or memory that was not its own but
+	// what its parent had left (e.g. the context of a pcall): the parent has
+	// then run out too.
+	outOfParentCPU, outOfParentMemory bool
 }
 
 var _ error = ContextTerminationError{}
